@@ -7,6 +7,7 @@ import multiprocessing as mp
 import os
 import signal
 import subprocess
+import tempfile
 import sys
 import time
 import traceback
@@ -335,11 +336,55 @@ def run_shard(args) -> Dict[str, Any]:
                                                  traceback.format_exc())}
 
 
-def _shard_child(task, conn) -> None:
+def _shard_child(task, conn, scratch) -> None:
+    # forked workers leave through os._exit: atexit handlers never run, so
+    # everything a case leaves behind has to be bounded here.  Temporary
+    # files go below `scratch` (removed by the parent) and helper processes
+    # (ssh, sshd, ssh-agent ...) stay in this worker's session, which the
+    # parent reaps when the shard is over
+    import atexit
+    import tempfile
+
+    try:
+        os.setsid()
+        # ... and the worker goes when the runner goes (PR_SET_PDEATHSIG)
+        import ctypes
+        ctypes.CDLL('libc.so.6').prctl(1, signal.SIGKILL)
+    except OSError:
+        pass
+
+    os.environ['TMPDIR'] = scratch
+    tempfile.tempdir = None
+
     try:
         conn.send(run_shard(task))
     finally:
         conn.close()
+        try:
+            atexit._run_exitfuncs()  # pylint: disable=protected-access
+        except BaseException:  # pylint: disable=broad-except
+            pass
+
+
+def _reap(sid: int, scratch: str) -> None:
+    """Kill whatever is left in a finished worker's session and remove its
+    scratch directory"""
+
+    import shutil
+    import signal
+
+    for ent in os.listdir('/proc'):
+        if not ent.isdigit():
+            continue
+        try:
+            with open('/proc/%s/stat' % ent) as f:
+                fields = f.read().rsplit(')', 1)[1].split()
+            if int(fields[3]) == sid and int(ent) != os.getpid():
+                os.kill(int(ent), signal.SIGKILL)
+        except (OSError, ValueError, IndexError):
+            continue
+
+    shutil.rmtree(scratch, ignore_errors=True)
 
 
 def _dead_result(task, why: str) -> Dict[str, Any]:
@@ -360,22 +405,24 @@ def run_tasks(tasks, nproc: int, tier: str) -> List[Dict[str, Any]]:
     hard = float(os.environ.get('VERIF_SHARD_LIMIT',
                                 '1500' if tier == 'quick' else '7200'))
     pending = list(tasks)
-    running: Dict[Any, Tuple[Any, Any, float]] = {}
+    running: Dict[Any, Tuple[Any, Any, float, str]] = {}
     results: List[Dict[str, Any]] = []
 
     while pending or running:
         while pending and len(running) < nproc:
             task = pending.pop(0)
             parent, child = ctx.Pipe(duplex=False)
-            proc = ctx.Process(target=_shard_child, args=(task, child))
+            scratch = tempfile.mkdtemp(prefix='vf-shard.')
+            proc = ctx.Process(target=_shard_child,
+                               args=(task, child, scratch))
             proc.start()
             child.close()
-            running[parent] = (proc, task, time.time())
+            running[parent] = (proc, task, time.time(), scratch)
 
         ready = wait(list(running), timeout=1.0)
 
         for conn in list(running):
-            proc, task, started = running[conn]
+            proc, task, started, scratch = running[conn]
 
             if conn in ready:
                 try:
@@ -388,11 +435,13 @@ def run_tasks(tasks, nproc: int, tier: str) -> List[Dict[str, Any]]:
                 proc.join(5)
                 conn.close()
                 del running[conn]
+                _reap(proc.pid, scratch)
             elif time.time() - started > hard:
                 proc.kill()
                 proc.join(5)
                 conn.close()
                 del running[conn]
+                _reap(proc.pid, scratch)
                 results.append(_dead_result(
                     task, 'exceeded the hard limit of %.0f s' % hard))
 
